@@ -23,6 +23,11 @@ CHECKS = {
    text="Binary-flow programs and message scenarios run on SimNet with quantum down to 1; after every worker step an independent root walk is compared with the executor's refcounts/freed/free/pending_free (positivity <=> reachability, reachable => not freed, free list consistent, zero-count slots queued for reclamation, no dangling index); at the end all binaries are read back and compared with model bytes.",
    design="§3 C06",
    note="Exact refcount multiplicity is recorded as an early warning only (the property states positivity). REPL local compaction is exercised by C11's workload with the same monitor."),
+ "C05": dict(
+   technique="runtime monitoring: online select monitor at between-step points (state-at-completion vs executable select model) + offline log checker for completion-fact conservation and mailbox order",
+   text="Generated selects (1-4 sources: awaits, type-only receives, pure filter receives, timeouts; helpers that send unique messages then finish or fail) run on the real workers/environment with quantum 1 on the selecting process's worker and random virtual-clock ticks; at the step where the select completes, the state known to the process is fed to a small model that returns the outcomes the statement allows (written-order priority, earliest acceptable message, timeout not before its duration, failure propagation at the failed source's position); afterwards 'later receives ++ mailbox' must equal the observed arrival order minus the taken message, and every completion fact the environment consumed must have been forwarded.",
+   design="§3 C05",
+   note="Filters are pure by construction; timeout readiness is two-sided tolerant at elapsed == d. The worker-layer oracle needs quantum 1 on worker 0, which all C05 schedules use."),
 }
 
 NOT_BUILT = "check not built yet in this round (work in progress; see DESIGN.md §6 build order)"
